@@ -14,6 +14,15 @@ ASSUMPTIONS = [
     "atom is read with the transform state of the training frame (center keeps the training mean); "
     "refusals of evaluate_new_data (levels= / ordered boxes on a frame lacking a level, D13) are "
     "counted, not judged (they belong to C06 / C10)",
+    "prediction with unseen levels: one more new frame per design (when it uses a categorical "
+    "variable) in which some rows of one to three used categorical variables hold a level no training "
+    "row has (strings sorting before / between / after the training levels, integers for k; "
+    "Categorical columns keep their dtype with the new label declared, or arrive as plain objects), "
+    "evaluated under EVAL_UNSEEN_CATEGORIES = 'silent' or 'warning'; judged by the same decoder on the "
+    "new frame (v[l] is 1 exactly where v equals l, hence 0 on rows holding an unseen level, also inside "
+    "':' products and e|g[l]).  The group part is read term by term there: the training labels of a term "
+    "name the first len(labels) columns of its block new[name]; columns appended for new groups carry no "
+    "label and are not judged here (C05 / C10 judge them)",
     "numeric data are small integers / dyadic rationals; entries are compared with relative "
     "tolerance 1e-9 because center() divides by the number of rows",
 ]
@@ -55,24 +64,82 @@ def new_frames(r, df):
             ("subset", designs.scramble_index(r, df.iloc[sub]))]
 
 
-def predict_parts(dm, nd):
-    """evaluate_new_data of the common and the group part; labels as the new objects report them"""
+UNSEEN_VARS = ["f", "g", "h", "cu", "co", "k"]       # categorical columns of the generated frames
+UNSEEN_MODES = ("silent", "warning")                  # the policies under which unseen levels evaluate
+
+
+def unseen_frame(r, df, used):
+    """rows of the training frame in which some rows of some USED categorical variables hold a
+    level that no training row has (a label sorting before, between or after the training levels;
+    an integer for `k`).  String columns stay strings; a Categorical column keeps its dtype with
+    the new label declared somewhere among the categories (relative order of the training
+    categories kept) or, if unordered, is handed over as plain objects.
+    returns (new frame, {variable: [row positions]}) or None when no categorical variable is used"""
+    import pandas as pd
+    cands = [v for v in UNSEEN_VARS if v in used and v in df.columns]
+    if not cands:
+        return None
+    idx = [r.randrange(len(df)) for _ in range(r.randrange(2, 10))]
+    nd = df.iloc[idx].reset_index(drop=True).copy()
+    placed = {}
+    for v in r.sample(cands, r.randrange(1, min(3, len(cands)) + 1)):
+        rows = sorted(r.sample(range(len(nd)), r.randrange(1, max(2, len(nd) // 2 + 1))))
+        label = r.choice([99, 0, 5]) if v == "k" else r.choice(["NEW_", "0_", "zz_", "k_"]) + v
+        vals = nd[v].tolist()
+        for k in rows:
+            vals[k] = label
+        dt = df[v].dtype
+        if isinstance(dt, pd.CategoricalDtype):
+            if not dt.ordered and r.random() < 0.5:
+                nd[v] = pd.Series(vals, dtype=object)
+            else:
+                cats = list(dt.categories)
+                cats.insert(r.randrange(len(cats) + 1), label)
+                nd[v] = pd.Categorical(vals, categories=cats, ordered=bool(dt.ordered))
+        else:
+            nd[v] = vals
+        placed[v] = rows
+    return designs.scramble_index(r, nd), placed
+
+
+def predict_parts(dm, nd, mode=None):
+    """evaluate_new_data of the common and the group part; labels as the new objects report them.
+    `mode`: the unseen-level policy in force during the evaluation (None = leave the default);
+    with a mode, the group part is read term by term: the training labels of a term name the
+    first len(labels) columns of its block (columns appended for new groups carry no label)"""
     import warnings
+    import formulae
+    import numpy as np
     out = []
-    for part in ("common", "group"):
-        obj = getattr(dm, part)
-        if obj is None:
-            continue
-        try:
-            with warnings.catch_warnings():
-                warnings.simplefilter("ignore")
-                new = obj.evaluate_new_data(nd)
-            labels = designs._labels(list(new.terms.values()))
-            if labels is None:
+    old = formulae.config["EVAL_UNSEEN_CATEGORIES"]
+    if mode is not None:
+        formulae.config["EVAL_UNSEEN_CATEGORIES"] = mode
+    try:
+        for part in ("common", "group"):
+            obj = getattr(dm, part)
+            if obj is None:
                 continue
-            out.append((part, {"labels": labels, "matrix": designs.mat(new.design_matrix)}))
-        except Exception as e:  # noqa  (refusals on new data belong to C06 / C10)
-            out.append((part, {"err": type(e).__name__}))
+            try:
+                with warnings.catch_warnings():
+                    warnings.simplefilter("ignore")
+                    new = obj.evaluate_new_data(nd)
+                labels = designs._labels(list(new.terms.values()))
+                if labels is None:
+                    continue
+                matrix = new.design_matrix
+                if mode is not None and part == "group":
+                    blocks, labels = [], []
+                    for name, t in new.terms.items():
+                        labs = list(t.labels)
+                        block = np.asarray(new[name])
+                        blocks.append(block[:, :len(labs)])
+                        labels.extend(labs)
+                    matrix = np.column_stack(blocks) if blocks else matrix
+                out.append((part, {"labels": labels, "matrix": designs.mat(matrix)}))
+            except Exception as e:  # noqa  (refusals on new data belong to C06 / C10)
+                out.append((part, {"err": type(e).__name__}))
+    finally:
+        formulae.config["EVAL_UNSEEN_CATEGORIES"] = old
     return out
 
 
@@ -85,8 +152,11 @@ def explore(tier, seed, res=None, replay=None):
                 "common.evaluate_new_data / group.evaluate_new_data of every design on the training "
                 "frame itself, a row-permuted copy, a longer frame of repeated rows (all levels "
                 "present) and a random sub-frame, judged by the same label decoder on the new frame's "
-                "data (call atoms keep their training-time transform state)")
-    n_cases = 600 if tier == "quick" else 20000
+                "data (call atoms keep their training-time transform state); plus a frame in which "
+                "some rows of used categorical variables hold levels unseen at training, evaluated "
+                "under the 'silent' / 'warning' policy (labelled columns judged, appended new-group "
+                "columns not)")
+    n_cases = 600 if tier == "quick" else 12000
     cases = []
     if replay is not None:
         cases = [(replay["formula"], replay.get("seed_path", 0))]
@@ -100,13 +170,18 @@ def explore(tier, seed, res=None, replay=None):
     for f, path in cases:
         r = rng_for(seed, "c04", path)
         df = designs.gen_frame(r)
-        formula = f or designs.gen_formula(r, extra=(r.random() < 0.3))
+        generated = f is None or (replay is not None and bool(replay.get("generated")))
+        if generated:
+            # (a replay of a generated case draws the same numbers, so that the frames that follow
+            # in the case's stream -- disturbing frame, new frames -- are the ones of the run)
+            g = designs.gen_formula(r, extra=(r.random() < 0.3))
+        formula = f or g
         res.evaluations += 1
         # a second design from the same formula text on another frame (other rows, other levels
         # present) is built before this one is inspected
         other = designs.gen_frame(r, complete=False)
         obs, req = designs.observe(formula, df, designs.NAMES, disturb=other)
-        case = {"formula": formula, "seed_path": path}
+        case = {"formula": formula, "seed_path": path, "generated": generated}
         if req is None:
             res.count("impl_error:" + obs["err"])
             continue
@@ -119,8 +194,19 @@ def explore(tier, seed, res=None, replay=None):
                           "names": designs.names_json(designs.NAMES), "na_action": "drop"})
         owners.append((case, obs, parts))
         # prediction stage: the matrices evaluate_new_data returns carry the same labels
-        for kind, nd in new_frames(r, df):
-            pparts = predict_parts(obs["_dm"], nd)
+        frames = [(kind, nd, None, None) for kind, nd in new_frames(r, df)]
+        # a new frame in which some rows hold levels unseen at training time, under a policy that
+        # evaluates them: a column labelled v[l] is 1 exactly where v equals l, so it is 0 there
+        try:
+            used = set(obs["_dm"].model.var_names)
+        except Exception:  # noqa
+            used = set()
+        un = unseen_frame(r, df, used)
+        if un is not None:
+            mode = r.choice(UNSEEN_MODES)
+            frames.append(("unseen_" + mode, un[0], mode, un[1]))
+        for kind, nd, mode, placed in frames:
+            pparts = predict_parts(obs["_dm"], nd, mode)
             good = []
             for pname, p in pparts:
                 if "err" in p:
@@ -132,7 +218,11 @@ def explore(tier, seed, res=None, replay=None):
             reqs_new.append({"op": "c04_spec", "formula": formula, "frame": designs.frame_json(nd),
                              "train_frame": req["frame"], "names": req["names"],
                              "parts": [p for _, p in good]})
-            owners_new.append((dict(case, stage="predict", new_frame=kind), good))
+            pcase = dict(case, stage="predict", new_frame=kind)
+            if placed is not None:
+                pcase["unseen_rows"] = placed
+                pcase["new_frame_columns"] = {v: [str(x) for x in nd[v].tolist()] for v in placed}
+            owners_new.append((pcase, good))
         if ":" in formula.split("~")[1] or "|" in formula:
             res.nontrivial.add(formula)
         if len(res.samples) < 6:
